@@ -923,3 +923,19 @@ MUTANTS += [
       "        self._z3_assertions.append(z3_assertion)\n        self._z3_assertion_hashes.append(assertion_hash)\n        return True",
       "        if len(self._z3_assertions) > 1000:\n            return True\n        self._z3_assertions.append(z3_assertion)\n        self._z3_assertion_hashes.append(assertion_hash)\n        return True"),
 ]
+
+MUTANTS += [
+    # ---- eighth wave: rules added for what the seeds showed ----
+    B("c16-csv-file-without-the-separator", ["C16"], SOL,
+      "            self.to_df().to_csv(path_or_buf=csv_filename, index=False, sep=separator)",
+      "            self.to_df().to_csv(path_or_buf=csv_filename, index=False)"),
+    B("c16-csv-with-the-index-column", ["C16"], SOL,
+      "            return self.to_df().to_csv(index=False, sep=separator)", "            return self.to_df().to_csv(sep=separator)"),
+    T("c16-csv-frame-built-once", ["C16"], SOL,
+      "        if csv_filename is not None:\n            self.to_df().to_csv(path_or_buf=csv_filename, index=False, sep=separator)\n        else:\n            return self.to_df().to_csv(index=False, sep=separator)",
+      "        frame = self.to_df()\n        if csv_filename is None:\n            return frame.to_csv(sep=separator, index=False)\n        frame.to_csv(csv_filename, sep=separator, index=False)"),
+    B("c01-solver-drains-the-list-it-is-given", ["C01", "C13"], SV,
+      "            for asst in assts:\n                asst_identifier", "            while assts:\n                asst = assts.pop(0)\n                asst_identifier"),
+    T("c01-solver-drains-a-copy", ["C01", "C13"], SV,
+      "            for asst in assts:\n                asst_identifier", "            assts = list(assts)\n            while assts:\n                asst = assts.pop(0)\n                asst_identifier"),
+]
